@@ -14,6 +14,7 @@
 #pragma once
 
 #include <pistache/typeid.h>
+#include <pistache/verif_hooks.h>
 
 #include <atomic>
 #include <condition_variable>
@@ -348,8 +349,12 @@ namespace Pistache::Async
                 }
                 catch (const InternalRethrow& e)
                 {
+                    PISTACHE_VERIF_YIELD("p.chain.store");
+                    PISTACHE_VERIF_ACCESS(chain_.get(), "state", 1);
                     chain_->exc   = e.exc;
                     chain_->state = State::Rejected;
+                    PISTACHE_VERIF_YIELD("p.chain.walk");
+                    PISTACHE_VERIF_ACCESS(chain_.get(), "requests", 0);
                     for (const auto& req : chain_->requests)
                     {
                         req->reject(chain_);
@@ -433,6 +438,8 @@ namespace Pistache::Async
                 void doReject(const std::shared_ptr<CoreT<T>>& core) override
                 {
                     reject_(core->exc);
+                    PISTACHE_VERIF_YIELD("p.chain.walk");
+                    PISTACHE_VERIF_ACCESS(this->chain_.get(), "requests", 0);
                     for (const auto& req : this->chain_->requests)
                     {
                         req->reject(this->chain_);
@@ -443,7 +450,11 @@ namespace Pistache::Async
                 void finishResolve(Ret&& ret) const
                 {
                     typedef typename std::decay<Ret>::type CleanRet;
+                    PISTACHE_VERIF_YIELD("p.chain.store");
+                    PISTACHE_VERIF_ACCESS(this->chain_.get(), "state", 1);
                     this->chain_->template construct<CleanRet>(std::forward<Ret>(ret));
+                    PISTACHE_VERIF_YIELD("p.chain.walk");
+                    PISTACHE_VERIF_ACCESS(this->chain_.get(), "requests", 0);
                     for (const auto& req : this->chain_->requests)
                     {
                         req->resolve(this->chain_);
@@ -478,6 +489,8 @@ namespace Pistache::Async
                 void doReject(const std::shared_ptr<CoreT<void>>& core) override
                 {
                     reject_(core->exc);
+                    PISTACHE_VERIF_YIELD("p.chain.walk");
+                    PISTACHE_VERIF_ACCESS(this->chain_.get(), "requests", 0);
                     for (const auto& req : this->chain_->requests)
                     {
                         req->reject(this->chain_);
@@ -488,7 +501,11 @@ namespace Pistache::Async
                 void finishResolve(Ret&& ret) const
                 {
                     typedef typename std::remove_reference<Ret>::type CleanRet;
+                    PISTACHE_VERIF_YIELD("p.chain.store");
+                    PISTACHE_VERIF_ACCESS(this->chain_.get(), "state", 1);
                     this->chain_->template construct<CleanRet>(std::forward<Ret>(ret));
+                    PISTACHE_VERIF_YIELD("p.chain.walk");
+                    PISTACHE_VERIF_ACCESS(this->chain_.get(), "requests", 0);
                     for (const auto& req : this->chain_->requests)
                     {
                         req->resolve(this->chain_);
@@ -837,6 +854,7 @@ namespace Pistache::Async
 
             typedef typename std::remove_reference<Arg>::type Type;
 
+            PISTACHE_VERIF_YIELD("p.settle.check");
             if (core_->state != State::Pending)
                 throw Error("Attempt to resolve a fulfilled promise");
 
@@ -849,9 +867,13 @@ namespace Pistache::Async
                 throw Error("Attempt to resolve a void promise with arguments");
             }
 
-            std::unique_lock<std::mutex> guard(core_->mtx);
+            PISTACHE_VERIF_GUARD(guard, core_->mtx, "p.settle.lock");
+            PISTACHE_VERIF_YIELD("p.settle.store");
+            PISTACHE_VERIF_ACCESS(core_.get(), "state", 1);
             core_->construct<Type>(std::forward<Arg>(arg));
 
+            PISTACHE_VERIF_YIELD("p.settle.walk");
+            PISTACHE_VERIF_ACCESS(core_.get(), "requests", 0);
             for (const auto& req : core_->requests)
             {
                 req->resolve(core_);
@@ -865,14 +887,19 @@ namespace Pistache::Async
             if (!core_)
                 return false;
 
+            PISTACHE_VERIF_YIELD("p.settle.check");
             if (core_->state != State::Pending)
                 throw Error("Attempt to resolve a fulfilled promise");
 
             if (!core_->isVoid())
                 throw Error("Attempt ro resolve a non-void promise with no argument");
 
-            std::unique_lock<std::mutex> guard(core_->mtx);
+            PISTACHE_VERIF_GUARD(guard, core_->mtx, "p.settle.lock");
+            PISTACHE_VERIF_YIELD("p.settle.store");
+            PISTACHE_VERIF_ACCESS(core_.get(), "state", 1);
             core_->state = State::Fulfilled;
+            PISTACHE_VERIF_YIELD("p.settle.walk");
+            PISTACHE_VERIF_ACCESS(core_.get(), "requests", 0);
             for (const auto& req : core_->requests)
             {
                 req->resolve(core_);
@@ -909,12 +936,17 @@ namespace Pistache::Async
             if (!core_)
                 return false;
 
+            PISTACHE_VERIF_YIELD("p.settle.check");
             if (core_->state != State::Pending)
                 throw Error("Attempt to reject a fulfilled promise");
 
-            std::unique_lock<std::mutex> guard(core_->mtx);
+            PISTACHE_VERIF_GUARD(guard, core_->mtx, "p.settle.lock");
+            PISTACHE_VERIF_YIELD("p.settle.store");
+            PISTACHE_VERIF_ACCESS(core_.get(), "state", 1);
             core_->exc   = std::move(exc);
             core_->state = State::Rejected;
+            PISTACHE_VERIF_YIELD("p.settle.walk");
+            PISTACHE_VERIF_ACCESS(core_.get(), "requests", 0);
             for (const auto& req : core_->requests)
             {
                 req->reject(core_);
@@ -929,12 +961,17 @@ namespace Pistache::Async
             if (!core_)
                 return false;
 
+            PISTACHE_VERIF_YIELD("p.settle.check");
             if (core_->state != State::Pending)
                 throw Error("Attempt to reject a fulfilled promise");
 
-            std::unique_lock<std::mutex> guard(core_->mtx);
+            PISTACHE_VERIF_GUARD(guard, core_->mtx, "p.settle.lock");
+            PISTACHE_VERIF_YIELD("p.settle.store");
+            PISTACHE_VERIF_ACCESS(core_.get(), "state", 1);
             core_->exc   = std::make_exception_ptr(exc);
             core_->state = State::Rejected;
+            PISTACHE_VERIF_YIELD("p.settle.walk");
+            PISTACHE_VERIF_ACCESS(core_.get(), "requests", 0);
             for (const auto& req : core_->requests)
             {
                 req->reject(core_);
@@ -1139,7 +1176,9 @@ namespace Pistache::Async
                 Continuation;
             std::shared_ptr<Private::Request> req = std::make_shared<Continuation>(promise.core_, resolveFunc, rejectFunc);
 
-            std::unique_lock<std::mutex> guard(core_->mtx);
+            PISTACHE_VERIF_GUARD(guard, core_->mtx, "p.then.lock");
+            PISTACHE_VERIF_YIELD("p.then.state");
+            PISTACHE_VERIF_ACCESS(core_.get(), "state", 0);
             if (isFulfilled())
             {
                 req->resolve(core_);
@@ -1149,6 +1188,8 @@ namespace Pistache::Async
                 req->reject(core_);
             }
 
+            PISTACHE_VERIF_YIELD("p.then.push");
+            PISTACHE_VERIF_ACCESS(core_.get(), "requests", 1);
             core_->requests.push_back(req);
 
             return promise;
